@@ -135,7 +135,7 @@ INC_VALID = "; included helper file\n\nhelper_value = 0x21\n/* with\n a comment 
 
 
 def bound(tier):
-    return "10 base programs x every insertable line boundary x 7 faults x 2 indentations x 3 file situations"
+    return "10 base programs x every insertable line boundary x 7 faults x 2 indentations x 3 file situations (thorough: + nested include, + the 13 generated programs of the layout check)"
 
 
 def parse_base(text):
@@ -153,7 +153,45 @@ def parse_base(text):
     return lines, insertable
 
 
+def all_bases(tier):
+    """Hand-written base programs, plus (thorough) the generated programs of the layout check with every top-level boundary."""
+    bases = {k: parse_base(v) for k, v in BASE.items()}
+    if tier == "thorough":
+        from mc.checks import c16
+        for name, src, files in c16.base_programs():
+            lines = src.rstrip("\n").split("\n")
+            depth = 0
+            bounds = [0]
+            for k, line in enumerate(lines):
+                for a, b in c16.outside_quotes(line):
+                    depth += line[a:b].count("{") - line[a:b].count("}")
+                if depth == 0 and not line.rstrip().endswith(","):
+                    bounds.append(k + 1)
+            bases["gen-" + name] = (lines, bounds, files)
+    return bases
+
+
+_TIER = "quick"
+
+
+def setup(tier, seed):
+    global _TIER
+    _TIER = tier
+
+
 def cases(tier, seed):
+    setup(tier, seed)
+    for name in all_bases(tier):
+        if name.startswith("gen-"):
+            for f in FAULTS:
+                for sit in SITUATIONS + ["included-nested"]:
+                    yield ("fault", name, f, sit)
+            continue
+        yield ("control", name)
+        for f in FAULTS:
+            for sit in SITUATIONS + (["included-nested"] if tier == "thorough" else []):
+                yield ("fault", name, f, sit)
+    return
     for name in BASE:
         yield ("control", name)
         for f in FAULTS:
@@ -199,7 +237,9 @@ def check_report(text, fname, line_no, line_text, col, viol, ctx, fault):
 
 
 def run_fault(name, fault, sit):
-    lines, insertable = parse_base(BASE[name])
+    base = all_bases("thorough" if name.startswith("gen-") else "quick")[name]
+    lines, insertable = base[0], base[1]
+    extra_files = base[2] if len(base) > 2 else {}
     stmt, col0 = FAULTS[fault]
     viol = []
     outcomes = set()
@@ -221,9 +261,13 @@ def run_fault(name, fault, sit):
             elif sit == "included":
                 src = "; main file\n\n.include 'inc/part.s'\n; after\n"
                 files, fname, line_no = {"inc/part.s": text}, "inc/part.s", at
+            elif sit == "included-nested":
+                src = "; main file\n.include 'inc/outer.s'\n"
+                files, fname, line_no = {"inc/outer.s": "; outer include\n\n/* c */\n.include 'inc/part.s'\n", "inc/part.s": text}, "inc/part.s", at
             else:
                 src = "; main\n.include 'inc/ok.s'\n" + text
                 files, fname, line_no = {"inc/ok.s": INC_VALID}, "main.s", at + 2
+            files = dict(extra_files, **files)
             out, rep = report_of(src, files)
             evals += 1
             if at > 0:
